@@ -45,9 +45,11 @@ def gen_violation(rnd, in_msg):
     if k == "bad_utf8_text":
         if in_msg:
             return gen_violation(rnd, in_msg)   # the open message is binary: a continuation with any bytes is legal
-        return k, E(1, b"ok " + rnd.choice(BAD_UTF8) + (b" tail" if rnd.random() < 0.5 else b""))
+        # the text before the offending byte may contain anything, also characters that mean something to str.format / %
+        pre = rnd.choice([b"ok ", b"ok ", b'{"key": {"n": 1}, "s": "caf', b"100%s {0} {} }{ ", b""])
+        return k, E(1, pre + rnd.choice(BAD_UTF8) + (b" tail" if rnd.random() < 0.5 else b""))
     if k == "bad_utf8_close":
-        return k, E(8, ref6455.close_payload(1000, rnd.choice(BAD_UTF8)))
+        return k, E(8, ref6455.close_payload(1000, rnd.choice([b"", b"{bye} %d "]) + rnd.choice(BAD_UTF8)))
     if in_msg:
         return gen_violation(rnd, in_msg)
     bad = rnd.choice([b"\xe2\x82", b"\xf0\x9f\x98"])
